@@ -70,6 +70,10 @@
 #define VG_DEC_RUN    (VG_STRUCT_OK && VG_RUNNING)
 
 int vg_nc, vg_ml;   /* ghost: num_codes / min_code_length as read by read_code_tree */
+/* ghost: field order of a copy command (C04): how often the length field / the distance field have been decoded, for which
+   code the distance was decoded last, and how many length fields had been decoded by then */
+unsigned vg_n_count, vg_n_off, vg_off_code, vg_off_order;
+#define VG_CMD_GHOSTS vg_n_count, vg_n_off, vg_off_code, vg_off_order
 static uint8_t vg_rank[256];   /* ghost (C04): recency rank of every byte value, see the MTF groups below */
 #include "lib/pm2_decoder.c"
 
